@@ -151,9 +151,23 @@ pub fn run(tier: &str, seed: u64) -> Sink {
         }
         // long brackets: body placed in [[ ]] and [==[ ]==], both line endings
         if !body.contains(']') {
-            for (open, close) in [("[[", "]]"), ("[==[", "]==]")] {
-                let prog = format!("local x = {}{}{}\n", open, body, close);
+            for (open, close) in [("[[", "]]"), ("[=[", "]=]"), ("[==[", "]==]")] {
+              for pos in 0..4 {
+                let lit = format!("{}{}{}", open, body, close);
+                // `t[[[x]]]` / `{ [[[x]]] = 1 }` are not valid input: the source needs the space
+                let prog = match pos {
+                    2 => format!("local t = {{ [ {} ] = 1 }}\n", lit),
+                    3 => format!("local y = t[ {} ]\n", lit),
+                    _ => positions(&lit, pos),
+                };
+                if pos > 0 && body.chars().count() > 2 {
+                    continue;
+                }
                 if !parses(&prog, LuaVersion::All) {
+                    continue;
+                }
+                let in_strs = tokens(&prog, LuaVersion::All).map(|t| string_tokens(&t)).unwrap_or_default();
+                if in_strs.len() != 1 || in_strs[0].1 != *body {
                     continue;
                 }
                 for eol in [LineEndings::Unix, LineEndings::Windows] {
@@ -162,7 +176,7 @@ pub fn run(tier: &str, seed: u64) -> Sink {
                     if let Outcome::Ok(out) = fmt(&prog, c, None, false) {
                         let toks = tokens(&out, LuaVersion::All);
                         let strs = toks.as_ref().map(|t| string_tokens(t)).unwrap_or_default();
-                        if strs.len() != 1 || strs[0].0 != "Brackets" {
+                        if !parses(&out, LuaVersion::All) || strs.len() != 1 || strs[0].0 != "Brackets" {
                             sink.v("C04", "long-output-not-a-string", json!({"input": prog, "config": cfg_to_string(&c), "output": out}));
                             continue;
                         }
@@ -170,8 +184,8 @@ pub fn run(tier: &str, seed: u64) -> Sink {
                             format!("long {} {}", if eol == LineEndings::Windows { "crlf" } else { "lf" }, hex(body.as_bytes())),
                             hex(strs[0].1.as_bytes()),
                         );
-                        if strs[0].2 != (if open == "[[" { 0 } else { 2 }) {
-                            sink.v("C04", "long-level-changed", json!({"input": prog, "output": out}));
+                        if strs[0].2 != open.len() - 2 {
+                            sink.v("C04", "long-level-changed", json!({"input": prog, "config": cfg_to_string(&c), "output": out}));
                         }
                         let lone_cr = {
                             let b = body.as_bytes();
@@ -182,6 +196,7 @@ pub fn run(tier: &str, seed: u64) -> Sink {
                         }
                     }
                 }
+              }
             }
         }
         (sink, stats)
